@@ -172,6 +172,8 @@ def bool_branch(fn, local):
     (directly or through Not / copies).  Returns list of (bb, true_target, false_target)."""
     out = []
     # forward: local -> copies / Not
+    if len(fn.defs.get(local, ())) > 1:
+        return out   # assigned on several paths (`x = a || f()`): a test of the local is not a test of this one value
     pol = {local: True}
     changed = True
     while changed:
@@ -184,6 +186,8 @@ def bool_branch(fn, local):
                 l = st["lhs"][0]
                 if l in pol:
                     continue
+                if len(fn.defs.get(l, ())) != 1:
+                    continue   # a local assigned on several paths (`a || b`) is not an alias of one of its sources
                 if rv["k"] == "use" and op_local(rv["a"]) in pol:
                     pol[l] = pol[op_local(rv["a"])]
                     changed = True
